@@ -8,8 +8,7 @@ says the ideal cursor splits the content of `a` at the concrete index.
 
 Quantifiers: every array state satisfying the invariant (any fill level, any capacity), every
 iterator-driving program over next/remove/add/replace/index — not only contract-respecting ones —
-every element, every allocator schedule.  `hg` (growth function within the C cast's range) is used
-only for invariant preservation when `iter_add` re-allocates. -/
+every element, every allocator schedule, every growth function. -/
 namespace CC.Properties.C07Array
 open CC
 open CC.Spec.Seq (IterOp Cursor ZipCursor Out)
@@ -20,7 +19,7 @@ theorem iter_init (a : Arr) : Arr.Sim a {} { done := [], todo := a.abs, removed 
 /-- **every iterator program refines the ideal cursor**: same reports, same final content and
 cursor position; blocked `iter_add` calls (refused growth) leave array and cursor untouched -/
 theorem program_refines (ops : List IterOp) (a : Arr) (it : ArrIter) (c : Cursor) (m : Mem) (hinv : a.Inv)
-    (hlive : 0 < m.live) (hg : ∀ k, a.grow k ≤ Gen.CC_MAX_ELEMENTS) (hs : Arr.Sim a it c) :
+    (hlive : 0 < m.live) (hs : Arr.Sim a it c) :
     (a.iterRun it ops m).1 = (c.run ops ((a.iterRun it ops m).1.map Out.blocked)).1 ∧
     Arr.Sim (a.iterRun it ops m).2.1 (a.iterRun it ops m).2.2.1 (c.run ops ((a.iterRun it ops m).1.map Out.blocked)).2 ∧
     (a.iterRun it ops m).2.1.Inv ∧
@@ -30,7 +29,7 @@ theorem program_refines (ops : List IterOp) (a : Arr) (it : ArrIter) (c : Cursor
   | cons op ops ih =>
     obtain ⟨s1, s2, s3, s4, s5, s6, _⟩ := Arr.iterStep_sim a it c op m hinv hlive hs
     obtain ⟨i1, i2, i3, i5, i6⟩ := ih (a.iterStep it op m).2.1 (a.iterStep it op m).2.2.1 _ (a.iterStep it op m).2.2.2
-      (s4 (hg _)) (by omega) (by rw [s3]; exact hg) s2
+      s4 (by omega) s2
     simp only [Arr.iterRun, Cursor.run, List.map_cons, List.headD_cons, List.tail_cons]
     exact ⟨by rw [← i1, ← s1], i2, i3, by rw [i5, s5], by rw [i6, s6]⟩
 
@@ -137,11 +136,10 @@ theorem spec_traversal (done xs : List Nat) :
 
 /-- in the concrete model: `size + 1` calls of `iter_next` on a fresh iterator over any array yield
 exactly its content in index order, then `CC_ITER_END` -/
-theorem traversal_complete (a : Arr) (m : Mem) (hinv : a.Inv) (hlive : 0 < m.live)
-    (hg : ∀ k, a.grow k ≤ Gen.CC_MAX_ELEMENTS) :
+theorem traversal_complete (a : Arr) (m : Mem) (hinv : a.Inv) (hlive : 0 < m.live) :
     (a.iterRun {} (List.replicate (a.size + 1) .next) m).1 =
       a.abs.map (fun x => ({ st := some .ok, val := some x } : Out)) ++ [{ st := some .iterEnd }] := by
-  have h := (program_refines (List.replicate (a.size + 1) .next) a {} _ m hinv hlive hg (iter_init a)).1
+  have h := (program_refines (List.replicate (a.size + 1) .next) a {} _ m hinv hlive (iter_init a)).1
   have hb : ∀ (c : Cursor) (n : Nat) (bl : List (Option Stat)),
       (c.run (List.replicate n .next) bl).1 = (c.run (List.replicate n .next) []).1 := by
     intro c n
